@@ -101,6 +101,13 @@ class Executor(ExternMixin, ExprMixin, CallMixin, BuiltinMixin, StmtMixin, Engin
             env[van] = SV('tuple', tuple(self.fresh_of(s, f'{van}{i}') for i, s in enumerate(pspecs.get(van, []))))
         for g, (spec, init) in c.get('ghost', {}).items():
             st.ghost[g] = self.ev_spec(init, env)
+        for loc, (spec, constraint) in c.get('class_state', {}).items():
+            cname, _, attr = loc.rpartition('.')
+            v = self.fresh_of(spec, attr)
+            st.ghost[('clsattr', cname, attr)] = v
+            e2 = dict(env)
+            e2['self_cached'] = v
+            self.assume(self.truth(self.ev_spec(constraint, e2)))
         for nm, r in self.clauses(c.get('requires', [])):
             self.assume(self.truth(self.ev_spec(r, env)))
         st.old_heap = st.snapshot_heap()
@@ -122,6 +129,8 @@ class Executor(ExternMixin, ExprMixin, CallMixin, BuiltinMixin, StmtMixin, Engin
             self.in_body = False
         # ---- exit obligations
         declared = c.get('raises', {})
+        if outcome[0] == 'raise' and outcome[1] == 'StubException':
+            return outcome       # an exception of an abstract callee propagates: allowed by definition, nothing to prove
         if outcome[0] == 'raise':
             exc = outcome[1]
             cond = declared.get(exc)
